@@ -98,8 +98,10 @@ def records_before_panic(chk, F, rule, cfg, nostd):
         under_lock = any(True for _ in p.calls(r'Mutex::lock$')) or nostd
         chk.ob(rule, 'the push happens under the lock', under_lock, config=cfg, fn=ip, site='lock', what='push outside lock')
         if nostd:
-            w = [e for e in p.effects if e.kind == 'write' and e.data[1] == ('c', True) and mentions(e.data[0][0][1] if e.data[0][0][0] == 'ptr' else ('unk', ''), lambda x: (x[0] == 'ref' and any(el == ('f', 'panicked') for el in x[1][1])) or (x[0] == 'field' and x[2] == 'panicked'))]
-            chk.ob(rule, 'no_std: induce_panic marks the instance as panicked before panicking', len(w) >= 1, config=cfg, fn=ip,
+            own_flag = lambda x: ((x[0] == 'ref' and any(el == ('f', 'panicked') for el in x[1][1]) and not any(el == ('f', 'shared_state') for el in x[1][1])) or  # noqa: E731
+                                  (x[0] == 'field' and x[2] == 'panicked' and not mentions(x[1], lambda y: y[0] == 'field' and y[2] == 'shared_state')))
+            w = [e for e in p.effects if e.kind == 'write' and e.data[1] == ('c', True) and mentions(e.data[0][0][1] if e.data[0][0][0] == 'ptr' else ('unk', ''), own_flag)]
+            chk.ob(rule, 'no_std: induce_panic marks this very instance (not the shared state) as panicked before panicking', len(w) >= 1, config=cfg, fn=ip,
                    site='panicked', what='panicked flag not set', found=[show(e.data[1]) for e in p.effects if e.kind == 'write'], expected='*panicked = true')
     chk.sample({'fn': ip.defp, 'config': cfg, 'paths': len(paths), 'push': 'Vec::push(&mut *guard(panic_reasons), error)'})
 
